@@ -148,7 +148,7 @@ func genC13(cfg runCfg, e *emitter, rng *rand.Rand) {
 		full.TotalRows = []uint8{0, 5, 63}[hI%3]
 		part := u.NewMapPollard(false)
 		part.TotalRows = []uint8{63, 0, 4}[hI%3]
-		pi := &partialInst{&part, map[u.Hash]bool{}}
+		pi := &partialInst{m: &part, R: map[u.Hash]bool{}}
 		var dead []u.Hash
 		nb := 1 + rng.Intn(6)
 		sig := ""
@@ -305,7 +305,7 @@ func genC13(cfg runCfg, e *emitter, rng *rand.Rand) {
 						if mm.Full {
 							observeFull(e, "restored-"+name+"-"+mode, &m2, rf, dead, rng)
 						} else {
-							observePartial(e, &partialInst{&m2, pi.R}, rf, dead, rng)
+							observePartial(e, &partialInst{m: &m2, R: pi.R}, rf, dead, rng)
 						}
 						e.count("map_restore_" + mode)
 					}()
@@ -361,7 +361,7 @@ func genC13(cfg runCfg, e *emitter, rng *rand.Rand) {
 			if _, err := p2.Read(&b2); err != nil {
 				return
 			}
-			pi2 := &partialInst{&p2, copySet(pi.R)}
+			pi2 := &partialInst{m: &p2, R: copySet(pi.R)}
 			type rec struct {
 				dels, adds []u.Hash
 				proof      u.Proof
